@@ -7,6 +7,7 @@ from .. import xsd
 from ..engine import Oracle
 from ..rng import Streams
 from . import common
+from . import c09 as _c09  # noqa: F401  (registers the catalog assignment op)
 
 ID = "C03"
 LEVEL = "exploration"
@@ -113,6 +114,19 @@ def gen_trace(seed: int, tier: str) -> dict:
     r = S("config")
     thorough = tier == "thorough"
     n = r.randint(10, 35) if not thorough else r.randint(20, 100)
+    if r.random() < 0.3:
+        # catalog arm: the property catalog of C09 (in-domain, None and out-of-domain assignments on a kit of objects)
+        # under the XSD oracle: a rejected value must leave the part as valid as it was
+        from . import c09
+        c09.build_catalog()
+        events, sw = common.gen_history(seed, n_events=n, families=["c09", "text", "dml", "charts"], always=("c09",),
+                                        ckpt=0.02, reopen=0.03, restart=0.0, observe=0.02, jump=0.0, fork=0.0, warmup=False)
+        rb = S("bad")
+        for e in events:
+            if e["op"] == "c09.set" and rb.random() < 0.35 and c09.CAT[e["entry"]]["bad"]:
+                e["kind"], e["v"] = "bad", rb.choice(c09.CAT[e["entry"]]["bad"])
+        return {"property": ID, "seed": seed, "tier": tier, "config": {"arm": "catalog", "max_slides": 3, "max_shapes": 40},
+                "start": [{"deck": "default"}], "events": [dict(e, dt=1.0) for e in c09.kit_events()] + events}
     pool = r.choice(["default", "corpus", "corpus"])
     start = common.start_recipe(S("start"), pool, xform_rate=0.0)
     events, sw = common.gen_history(
